@@ -5,6 +5,7 @@ package main
 import (
 	"errors"
 	"fmt"
+	"hash/crc32"
 	"io"
 	"net"
 	"os"
@@ -68,8 +69,13 @@ func (e cliEv) String() string {
 			return fmt.Sprintf("%s(#%d)", e.K, e.I)
 		}
 		return fmt.Sprintf("%s(%c)", e.K, 'A'+e.I)
+	case "unknown":
+		if e.I >= 5 {
+			return "unknown(" + []string{"CRC-32 twin of A", "xor-fold twin of A", "byte permutation of A"}[e.I-5] + ")"
+		}
+		return "unknown"
 	case "tick":
-		return "tick(" + []string{"at-deadline", "just-after-deadline", "far", "late: deadline+0.3 rto"}[e.Arg] + ")"
+		return "tick(" + []string{"at-deadline", "just-after-deadline", "far", "late: deadline+0.3 rto", "early: half-way to the deadline"}[e.Arg] + ")"
 	case "garbage":
 		return "garbage(" + []string{"7 bytes", "bad cookie", "1025 bytes (truncated by the reader)", "attribute overrun", "valid header, body cut short"}[e.Arg] + ")"
 	case "failagent":
@@ -165,6 +171,7 @@ type txInst struct {
 	RTO         time.Duration
 	StartTime   time.Time
 	StartPos    int  // log position when the call was issued
+	CallPos     int  // log position when the library call began (after the scheduling point in front of it); 0 = unknown
 	Thr         int  // scheduler thread that issued the call
 	Started     bool // call issued
 	Returned    bool
@@ -409,6 +416,21 @@ func cliID(slot int) (id [12]byte) {
 		id[5] ^= 0x10
 	case 4:
 		id[6] ^= 0x10
+	case 5: // ids a digest of A would collide with: same CRC-32 ...
+		for i := 0; i < 8; i++ {
+			id[i] ^= 0xA5
+		}
+		want := crc32.ChecksumIEEE(func() []byte { a := cliID(0); return a[:] }())
+		b := id[:]
+		cliForceCRC32(b, want)
+	case 6: // ... equal under an xor-fold of the second and third word
+		for i := 0; i < 4; i++ {
+			id[4+i] ^= []byte{0x80, 0x01, 0x00, 0x7F}[i]
+			id[8+i] ^= []byte{0x80, 0x01, 0x00, 0x7F}[i]
+		}
+	case 7: // ... the same bytes in another order
+		id[0], id[11] = id[11], id[0]
+		id[3], id[4] = id[4], id[3]
 	case 8: // id used by re-entrant handlers
 		id[2] ^= 0xff
 	case 9: // unknown id
@@ -418,6 +440,31 @@ func cliID(slot int) (id [12]byte) {
 		id[1], id[2], id[4] = byte(slot), byte(slot>>8), 0xEE
 	}
 	return
+}
+
+// cliForceCRC32 rewrites the last 4 bytes of b so that its CRC-32 (IEEE) is want.
+func cliForceCRC32(b []byte, want uint32) {
+	tbl := crc32.IEEETable
+	n := len(b) - 4
+	reg := ^crc32.ChecksumIEEE(b[:n])
+	var idx [4]int
+	r := ^want
+	for i := 3; i >= 0; i-- {
+		for t := 0; t < 256; t++ {
+			if tbl[t]>>24 == r>>24 {
+				idx[i] = t
+				r = (r ^ tbl[t]) << 8
+				break
+			}
+		}
+	}
+	for i := 0; i < 4; i++ {
+		b[n+i] = byte(reg) ^ byte(idx[i])
+		reg = reg>>8 ^ tbl[idx[i]]
+	}
+	if crc32.ChecksumIEEE(b) != want {
+		panic("cliForceCRC32 failed")
+	}
 }
 
 func cliRequest(slot, size int) *stun.Message {
@@ -587,6 +634,7 @@ func (w *cliWorld) do(ev cliEv, quiesce bool) {
 		inst.Started = true
 		inst.Thr = sched.CurrentID()
 		sched.Point("invoke", nil)
+		inst.CallPos = len(w.log)
 		err := c.Start(m, w.handlerFor(inst, idx))
 		inst.Returned, inst.RetErr = true, err
 		inst.RetAt = w.rec(obsRec{Kind: "start-ret", Inst: idx, Err: err})
@@ -601,6 +649,7 @@ func (w *cliWorld) do(ev cliEv, quiesce bool) {
 		body := func() {
 			inst.Thr = sched.CurrentID()
 			sched.Point("invoke", nil)
+			inst.CallPos = len(w.log)
 			err := c.Do(m, func(e stun.Event) { h(e) })
 			inst.Returned, inst.RetErr = true, err
 			inst.RetAt = w.rec(obsRec{Kind: "do-ret", Inst: idx, Err: err})
@@ -613,8 +662,9 @@ func (w *cliWorld) do(ev cliEv, quiesce bool) {
 	case "indicate":
 		m := cliRequest(ev.I, 20)
 		sched.Point("invoke", nil)
+		callPos := len(w.log)
 		err := c.Indicate(m)
-		w.rec(obsRec{Kind: "indicate-ret", Inst: -1, Err: err, ID: m.TransactionID})
+		w.rec(obsRec{Kind: "indicate-ret", Inst: -1, Err: err, ID: m.TransactionID, N: callPos})
 	case "resp", "dup":
 		// causality: a response exists only after a successful write carrying the id; if no such
 		// write ever happens the response is never sent (the wait gives up when nothing else can move)
@@ -634,8 +684,12 @@ func (w *cliWorld) do(ev cliEv, quiesce bool) {
 		w.conn.inbox = append(w.conn.inbox, d)
 	case "unknown":
 		sched.Point("net", nil)
-		d := cliResponseSized(9, len(w.delivered), ev.Arg)
-		w.rec(obsRec{Kind: "deliver", Inst: -1, N: len(w.delivered), ID: cliID(9)})
+		slot := 9
+		if ev.I >= 5 && ev.I <= 7 {
+			slot = ev.I // an id that is not in flight but is a "twin" of A under some digest
+		}
+		d := cliResponseSized(slot, len(w.delivered), ev.Arg)
+		w.rec(obsRec{Kind: "deliver", Inst: -1, N: len(w.delivered), ID: cliID(slot)})
 		w.delivered = append(w.delivered, d)
 		w.conn.inbox = append(w.conn.inbox, d)
 	case "garbage":
@@ -646,6 +700,12 @@ func (w *cliWorld) do(ev cliEv, quiesce bool) {
 	case "tick":
 		t := w.clock.now
 		switch ev.Arg {
+		case 4: // the collector fires between deadlines (what the built-in ticker does most of the time)
+			if d, ok := w.agent.nextDeadline(); ok && d.After(t) {
+				t = t.Add(d.Sub(t) / 2)
+			} else {
+				t = t.Add(time.Millisecond)
+			}
 		case 0, 1, 3:
 			if d, ok := w.agent.nextDeadline(); ok {
 				t = d
